@@ -207,3 +207,27 @@ func init() {
 	mut("C13", "final-cut adjustment loses the floor of one", true, "clamp-shape", Edit{a, "\tnewDifficulty = newDifficulty.max(s.Difficulty.sub(maxAdjust))\n\n\treturn newDifficulty.max(oneWork) // difficulty cannot be 0", "\treturn newDifficulty.max(s.Difficulty.sub(maxAdjust))"})
 	mut("C13", "median-time test uses After", true, "median-time", Edit{v, "} else if bh.Timestamp.Before(s.medianTimestamp()) {", "} else if s.medianTimestamp().Before(bh.Timestamp) {"})
 }
+
+func init() {
+	// ---- C09 ----
+	a := "consensus/application.go"
+	mut("C09", "spend recorder stores the caller's element (Move instead of Copy)", true, "diff-owns-memory",
+		Edit{a, "\tsced := ms.recordSiacoinElement(sce.ID)\n\tsced.SiacoinElement = sce.Copy()\n\tsced.Spent = true", "\tsced := ms.recordSiacoinElement(sce.ID)\n\tsced.SiacoinElement = sce.Move()\n\tsced.Spent = true"})
+	mut("C09", "multiproof encoder strips proofs on the caller's transactions", true, "inputs-not-written",
+		Edit{"types/multiproof.go", "func (txns V2TransactionsMultiproof) EncodeTo(e *Encoder) {", "func (txns V2TransactionsMultiproof) EncodeTo(e *Encoder) {\n\tif len(txns) > 0 && len(txns[0].SiacoinInputs) > 0 {\n\t\ttxns[0].SiacoinInputs[0].Parent.StateElement.MerkleProof = nil\n\t}"})
+	mut("C09", "semantic encoding zeroes the renewal's signatures through the original pointer", true, "inputs-not-written",
+		Edit{"types/encoding.go", "\t\t\trenewal := *res\n\t\t\tnilSigs(\n\t\t\t\t&renewal.NewContract.RenterSignature, &renewal.NewContract.HostSignature,\n\t\t\t\t&renewal.RenterSignature, &renewal.HostSignature,\n\t\t\t)\n\t\t\tfcr.Resolution = &renewal", "\t\t\trenewal := res\n\t\t\tnilSigs(\n\t\t\t\t&renewal.NewContract.RenterSignature, &renewal.NewContract.HostSignature,\n\t\t\t\t&renewal.RenterSignature, &renewal.HostSignature,\n\t\t\t)\n\t\t\tfcr.Resolution = renewal"})
+	mut("C09", "V2TransactionWeight nils proofs through the slice", true, "inputs-not-written",
+		Edit{"consensus/state.go", "\tfor _, sci := range txn.SiacoinInputs {\n\t\tsci.Parent.StateElement.MerkleProof = nil\n\t\tsci.EncodeTo(e)\n\t}", "\tfor i := range txn.SiacoinInputs {\n\t\ttxn.SiacoinInputs[i].Parent.StateElement.MerkleProof = nil\n\t\ttxn.SiacoinInputs[i].EncodeTo(e)\n\t}"})
+	mut("C09", "hashAll without Reset", true, "pool-discipline", Edit{"consensus/state.go", "\tdefer hasherPool.Put(h)\n\th.Reset()\n\tfor _, e := range elems {", "\tdefer hasherPool.Put(h)\n\tfor _, e := range elems {"})
+	mut("C09", "package-level cache written in FileContractTax", true, "no-shared-state",
+		Edit{"consensus/state.go", "func (s State) FileContractTax(fc types.FileContract) types.Currency {", "var lastTaxPayout types.Currency\n\nfunc (s State) FileContractTax(fc types.FileContract) types.Currency {\n\tlastTaxPayout = fc.Payout"})
+	mut("C09", "DeepCopy stops cloning ArbitraryData", true, "copy-is-deep", Edit{"types/types.go", "\tc.ArbitraryData = slices.Clone(c.ArbitraryData)\n\tif c.NewFoundationAddress != nil {", "\tif c.NewFoundationAddress != nil {"})
+	mut("C09", "StateElement.Copy reuses the proof's backing array", true, "copy-is-deep|StateElement.Copy", Edit{"types/types.go", "\tse.MerkleProof = slices.Clone(se.MerkleProof)\n\tse.shared = false", "\tse.MerkleProof = append(se.MerkleProof[:0], se.MerkleProof...)\n\tse.shared = false"})
+	mut("C09", "ValidateBlock applies each v2 transaction before validating it", true, "txn-by-txn",
+		Edit{"consensus/validation.go", "\tfor i, txn := range b.V2Transactions() {\n\t\tif err := ValidateV2Transaction(ms, txn); err != nil {\n\t\t\treturn fmt.Errorf(\"v2 transaction %v is invalid: %w\", i, err)\n\t\t}\n\t\tms.ApplyV2Transaction(txn)\n\t}", "\tfor i, txn := range b.V2Transactions() {\n\t\tms.ApplyV2Transaction(txn)\n\t\tif err := ValidateV2Transaction(ms, txn); err != nil {\n\t\t\treturn fmt.Errorf(\"v2 transaction %v is invalid: %w\", i, err)\n\t\t}\n\t}"})
+	mut("C09", "validateSignatures result depends on map iteration (first missing parent reported via side effect)", true, "deterministic",
+		Edit{"consensus/validation.go", "\tfor id, sig := range sigMap {\n\t\tif sig.need > 0 {\n\t\t\treturn fmt.Errorf(\"parent %v has missing signatures\", id)\n\t\t}\n\t}\n\treturn nil", "\tvar missing []types.Hash256\n\tfor id, sig := range sigMap {\n\t\tif sig.need > 0 {\n\t\t\tmissing = append(missing, id)\n\t\t}\n\t}\n\tif len(missing) > 0 {\n\t\treturn fmt.Errorf(\"parent %v has missing signatures\", missing[0])\n\t}\n\treturn nil"})
+	mut("C09", "(benign) V2TransactionWeight copies the input explicitly", false, "",
+		Edit{"consensus/state.go", "\tfor _, sci := range txn.SiacoinInputs {\n\t\tsci.Parent.StateElement.MerkleProof = nil\n\t\tsci.EncodeTo(e)\n\t}", "\tfor i := range txn.SiacoinInputs {\n\t\tsci := txn.SiacoinInputs[i]\n\t\tsci.Parent.StateElement.MerkleProof = nil\n\t\tsci.EncodeTo(e)\n\t}"})
+}
